@@ -131,6 +131,16 @@ for _pid, _mods in (("C06", "C06"), ("C07", "C07"), ("C19", "C19")):
         }[_pid] + "; streams inject (library entry points) and inject-cli (built CLI, -f/-d/-p mixed over 1-3 runs) compare every file's bytes after every run with the model and with an independent observer (reflect.StructTag lookups, bytes outside literals, run n+1 = run n)",
     }
 
+CHECKS["C05"] = {
+    "modules": ["PGV.Props.C05"], "audits": ["PGV/Audit/C05.lean"],
+    "streams": ["lang", "flat"], "thorough_seeds": 4,
+    "assumptions": WALK_ASSUME + [
+        "the documented language of each rule is the table in lean/PGV/Spec/Lang.lean (DESIGN.md §6 C05); date separators are judged when they are plain punctuation (sepOK); empty options, several rule items in one text and residual rules (ip, json, re, file, dir) get no spec verdict",
+        "Go's regexp implements the usual leftmost semantics for the transcribed patterns; time.Parse + Format for numeric layouts is the standard library's (residual)",
+    ],
+    "explanation": "T2_patterns (the regular expressions in the source are the transcribed ones, re-decided every run); C05_int / C05_phone (model recogniser = independent recogniser for every byte string), C05_timefmt_* (layout = components interleaved with the separators, all separators), C05_date_uses_layout, C05_unique_string, C05_prefix_suffix; stream lang: every rule on members, single-rune edits and random strings through Var/Struct/Map/Url, the verdict judged against Spec.Lang",
+}
+
 CONC_ASSUME = [
     "sync.RWMutex gives mutual exclusion and happens-before; sync.Pool hands an object to one goroutine at a time; the Go memory model — runtime contracts no executable model exhibits (partial)",
     "SetCustomerValidFn / SetStructTypeCache / SetDelCallBackFn run before the goroutines start, as the properties state",
@@ -161,6 +171,11 @@ CHECKS["C11"] = {
 }
 
 MANIFEST_TEXT = {
+    "C05": {
+        "technique": "regenerated regex facts (T2, decide) + Lean 4 theorems about recognisers, layout builder and content rules + differential correspondence judged by independent recognisers",
+        "text": "T2_patterns: every regexp.MustCompile constant of valid/init.go is re-extracted on each run and its regexp/syntax normal form must equal the one the model's recognisers transcribe (a widened class, a dropped anchor or an unescaped dot changes it). Theorems for every byte string / separator: C05_int, C05_phone (model recogniser = Spec.Lang), C05_timefmt_year/year2month/date/datetime (the layout is the components interleaved with the given separators), C05_date_uses_layout, C05_unique_string, C05_prefix_suffix. Tie: stream lang (60k cases quick): each of 20 rules on members of its language, 1-3 single-rune edits and random strings, custom / doubled / layout-significant separators, quoted options, through Var/Struct/Map/Url; the implementation's verdict is judged against the independent recognisers of Spec.Lang (phone, email, idcard, int, float, year, year2month, date, datetime, in, include, ints, unique, prefix, suffix), its text against the model.",
+        "note": "Trusted: Lean kernel; Spec.Lang as the reading of the documentation; regexp and time semantics of the stdlib; email / idcard / float recogniser-vs-spec equivalence is checked by the stream, not yet a theorem. Genuine defect found by this check and repaired (F-C05-f).",
+    },
     "C08": {
         "technique": "Lean 4 theorems (coherence invariant by induction over call histories, for every sound cache; soundness of LRU / map / always-miss) + differential correspondence, one process per cache configuration",
         "text": "Theorems: C08_call_transparent / C08_history — for EVERY sound cache, every call (a program with any number of struct-type lookups) and every history of calls from process start, each call returns exactly its cache-free result, and everything a call stores is (key, analyse key); C08_cache_independent; lruSound for every capacity (incl. 0), mapSound, missSound. The key is (type, tag name). Tie: streams cache-default / lru0 / lru1 / lru2 / lru3 / lru8 / syncmap / miss, each in its own process with SetStructTypeCache, sequential histories over a pool of 700 struct types (more than any capacity) x 3 tag names x overrides; every result is compared with the model's fresh-state result.",
